@@ -377,16 +377,29 @@ func (r *run) instantiate(d *Desc) {
 	bin := d.Encode()
 	got := "ok"
 	var mod api.Module
-	cm, err := r.rt.CompileModule(r.ctx, bin)
-	if err != nil {
-		got = "invalid"
-		rep.Count("inst-err-text:" + trimErr(err))
-	} else {
-		mod, err = r.rt.InstantiateModule(r.ctx, cm, wazero.NewModuleConfig().WithName(d.Name))
+	func() {
+		defer func() {
+			if e := recover(); e != nil {
+				// a Go panic out of the linker is never acceptable: the earlier instances' state is unknown
+				got = "panic"
+				vio("impl-violation", "C04:instantiate-panicked:"+r.engine, fmt.Sprintf("CompileModule/InstantiateModule panicked: %v", e), r.input(), want, nil)
+				r.failed = true
+			}
+		}()
+		cm, err := r.rt.CompileModule(r.ctx, bin)
 		if err != nil {
-			got = classify(err)
+			got = "invalid"
 			rep.Count("inst-err-text:" + trimErr(err))
+		} else {
+			mod, err = r.rt.InstantiateModule(r.ctx, cm, wazero.NewModuleConfig().WithName(d.Name))
+			if err != nil {
+				got = classify(err)
+				rep.Count("inst-err-text:" + trimErr(err))
+			}
 		}
+	}()
+	if got == "panic" {
+		return
 	}
 	rep.Count("inst:" + r.engine + ":" + got)
 	r.trace = append(r.trace, "inst "+d.Name+" -> "+got)
